@@ -47,6 +47,7 @@ inductive Sym (α : Type)
   | dot
   | lpar
   | rpar
+  | ring (n : Nat)              -- ring-closure number (digit or %nn)
   deriving Repr
 
 def printLink {α} : Link → List (Sym α)
@@ -112,5 +113,134 @@ def specCharge (s : List Nat) : Option Int :=
 def words (alpha : List Nat) : Nat → List (List Nat)
   | 0 => []
   | n+1 => alpha.map (fun c => [c]) ++ (words alpha n).flatMap fun w => alpha.map (fun c => c :: w)
+
+end ChythonModel.Spec.Smiles
+
+/-!
+## Ring closures
+
+`atom ringbond*` with `ringbond ::= bond? (DIGIT | '%' DIGIT DIGIT)`: a ring-closure number that is not open yet opens a
+ring bond at the current atom; a number that is open closes it: the two atoms are joined, and the number is free
+again. A bond symbol may be written at either end; written at both ends the two must agree (a direction mark agrees
+with a single bond and with another direction mark); without any written order the bond is aromatic between two
+aromatic atoms and single otherwise. A ring bond from an atom to itself has no meaning. At the end no ring may be open.
+(Reading with `strong_cycle = False`, the default of the reader.)
+-/
+namespace ChythonModel.Spec.Smiles
+
+/-- what is written in front of a ring-closure number -/
+inductive RSym
+  | none
+  | order (o : Nat)
+  | dir (up : Bool)
+  deriving DecidableEq, Repr
+
+structure RingBond where
+  sym : RSym
+  num : Nat
+  deriving DecidableEq, Repr
+
+def printRing {α} : RingBond → List (Sym α)
+  | ⟨.none, n⟩ => [.ring n]
+  | ⟨.order o, n⟩ => [.bond o, .ring n]
+  | ⟨.dir b, n⟩ => [.dir b, .ring n]
+
+def printRings {α} : List RingBond → List (Sym α)
+  | [] => []
+  | r :: tl => printRing r ++ printRings tl
+
+/-- an atom followed by its ring bonds -/
+def printAtomR {α} (rbs : α → List RingBond) (a : α) : List (Sym α) := .atom a :: printRings (rbs a)
+
+def printKR {α} (rbs : α → List RingBond) : K α → List (Sym α)
+  | .done => []
+  | .side l a inner rest => .lpar :: printLink l ++ printAtomR rbs a ++ printKR rbs inner ++ .rpar :: printKR rbs rest
+  | .next l a rest => printLink l ++ printAtomR rbs a ++ printKR rbs rest
+
+def printR {α} (rbs : α → List RingBond) (c : Chain α) : List (Sym α) := printAtomR rbs c.start ++ printKR rbs c.k
+
+/-- order of a ring bond from the symbols written at its opening and closing end; `none` = they contradict -/
+def ringOrder (bothAromatic : Bool) (s1 s2 : RSym) : Option Nat :=
+  let imp := if bothAromatic then 4 else 1
+  match s1, s2 with
+  | .none, .none => some imp
+  | .order o, .none => some o
+  | .none, .order o => some o
+  | .order a, .order b => if a = b then some a else none
+  | .dir _, .none => some imp
+  | .none, .dir _ => some imp
+  | .dir _, .dir _ => some imp
+  | .dir _, .order o => if o = 1 then some 1 else none
+  | .order o, .dir _ => if o = 1 then some 1 else none
+
+/-- a ring bond waiting for its second end -/
+structure OpenRing (α : Type) where
+  num : Nat
+  atom : Nat
+  pay : α
+  sym : RSym
+
+def findRing {α} (k : Nat) : List (OpenRing α) → Option (OpenRing α)
+  | [] => none
+  | o :: tl => if o.num == k then some o else findRing k tl
+
+def eraseRing {α} (k : Nat) : List (OpenRing α) → List (OpenRing α)
+  | [] => []
+  | o :: tl => if o.num == k then tl else o :: eraseRing k tl
+
+/-- one ring-closure number written after atom number `n` (payload `a`) -/
+def ringOne {α} (arom : α → Bool) (tbl : List (OpenRing α)) (n : Nat) (a : α) (rb : RingBond) :
+    Option (List (OpenRing α) × List (Nat × Nat × Nat)) :=
+  match findRing rb.num tbl with
+  | none => some (tbl ++ [⟨rb.num, n, a, rb.sym⟩], [])
+  | some o =>
+    if o.atom == n then none
+    else match ringOrder (arom o.pay && arom a) o.sym rb.sym with
+      | some ord => some (eraseRing rb.num tbl, [(n, o.atom, ord)])
+      | none => none
+
+def ringAll {α} (arom : α → Bool) (n : Nat) (a : α) : List (OpenRing α) → List RingBond →
+    Option (List (OpenRing α) × List (Nat × Nat × Nat))
+  | tbl, [] => some (tbl, [])
+  | tbl, rb :: rest =>
+    match ringOne arom tbl n a rb with
+    | none => none
+    | some (tbl1, b1) =>
+      match ringAll arom n a tbl1 rest with
+      | none => none
+      | some (tbl2, b2) => some (tbl2, b1 ++ b2)
+
+/-- atoms, bonds (in writing order of their later end) and ring table after a continuation; `none` = ring bonds
+    contradict each other -/
+def denoteKR {α} (arom : α → Bool) (rbs : α → List RingBond) (p : Nat) (pa : α) (n : Nat) (tbl : List (OpenRing α)) :
+    K α → Option (List α × List (Nat × Nat × Nat) × List (OpenRing α))
+  | .done => some ([], [], tbl)
+  | .side l a inner rest =>
+    match ringAll arom n a tbl (rbs a) with
+    | none => none
+    | some (tbl1, rb1) =>
+      match denoteKR arom rbs n a (n + 1) tbl1 inner with
+      | none => none
+      | some (as1, bs1, tbl2) =>
+        match denoteKR arom rbs p pa (n + 1 + as1.length) tbl2 rest with
+        | none => none
+        | some (as2, bs2, tbl3) =>
+          some (a :: as1 ++ as2, linkBonds arom l n p a pa ++ rb1 ++ bs1 ++ bs2, tbl3)
+  | .next l a rest =>
+    match ringAll arom n a tbl (rbs a) with
+    | none => none
+    | some (tbl1, rb1) =>
+      match denoteKR arom rbs n a (n + 1) tbl1 rest with
+      | none => none
+      | some (as1, bs1, tbl2) => some (a :: as1, linkBonds arom l n p a pa ++ rb1 ++ bs1, tbl2)
+
+/-- the graph a chain with ring closures denotes; `none` if ring bonds contradict each other or a ring stays open -/
+def denoteR {α} (arom : α → Bool) (rbs : α → List RingBond) (c : Chain α) : Option (Graph α) :=
+  match ringAll arom 0 c.start [] (rbs c.start) with
+  | none => none
+  | some (tbl0, rb0) =>
+    match denoteKR arom rbs 0 c.start 1 tbl0 c.k with
+    | none => none
+    | some (as, bs, tbl) => if tbl.isEmpty then some { atoms := c.start :: as, bonds := rb0 ++ bs } else none
 
 end ChythonModel.Spec.Smiles
